@@ -799,6 +799,9 @@ func evalBinaryBoolExpr(op parser.Operator, left, right *boolVal) (value, error)
 	return nil, fmt.Errorf("%w (bool): %v", ErrOperation, op.String())
 }
 
+// maxArrayLen is the largest array the repetition operator creates.
+const maxArrayLen = 1<<31 - 1
+
 func evalBinaryArrayExpr(op parser.Operator, left *arrayVal, right value) (value, error) {
 	switch op {
 	case parser.OP_PLUS:
@@ -815,6 +818,11 @@ func evalBinaryArrayExpr(op parser.Operator, left *arrayVal, right value) (value
 		}
 		if repetitions < 0 {
 			return nil, fmt.Errorf("%w: negative count: %s", ErrBadRepetition, right)
+		}
+		if n := len(*left.Elements); n == 0 {
+			repetitions = 0 // nothing to repeat, however often
+		} else if repetitions > maxArrayLen/n {
+			return nil, fmt.Errorf("%w: result too large: %s", ErrBadRepetition, right)
 		}
 		newElements := make([]value, 0, len(*left.Elements)*repetitions)
 		for range repetitions {
